@@ -52,6 +52,7 @@ extern int vs_io_maxclamp;   // clamp alternatives 1..maxclamp (and total-1)
 extern int vs_io_eagain;     // add an EAGAIN alternative
 extern int vs_tcp_grace_us;  // real-time grace before declaring quiescence
 extern uint32_t vs_random_seed; // nni_random() = deterministic stream
+extern int      vs_gai_fail_left, vs_gai_calls; // getaddrinfo of "*.invalid": fail this many times, then 127.0.0.1
 extern int vs_in_child;
 extern long vs_io_calls; // wrapped I/O calls seen in this execution
 
